@@ -40,6 +40,10 @@ pub struct Case {
     pub classic: bool,
     pub timeout: u8,
     pub ops: Vec<Op>,
+    /// one link never registers and cannot send: its socket is shut and re-opening it is refused from the start
+    /// (housekeeping retries it on every pass and every retry fails half-way)
+    #[serde(default)]
+    pub dead: Option<u8>,
 }
 
 const TIMEOUTS: &[u64] = &[5000, 5000, 2500, 15_000, 1000];
@@ -58,7 +62,8 @@ pub fn strategy(max_ops: usize) -> impl Strategy<Value = Case> {
         1 => prop_oneof![100u16..6000, Just(16_000u16)].prop_map(Op::Silence),
         3 => (any::<u16>(), prop_oneof![Just(500_080u32), Just(62_510), 1u32..4_000_000, 1u32..200_000]).prop_map(|(l, r)| Op::Rate(l, r)),
     ];
-    (1u8..=4, any::<bool>(), 0u8..TIMEOUTS.len() as u8, vec(op, 1..max_ops)).prop_map(|(n_links, classic, timeout, ops)| Case { n_links, classic, timeout, ops })
+    (1u8..=4, any::<bool>(), 0u8..TIMEOUTS.len() as u8, vec(op, 1..max_ops), prop::option::weighted(0.2, 0u8..4))
+        .prop_map(|(n_links, classic, timeout, ops, dead)| Case { n_links, classic, timeout, ops, dead: dead.filter(|_| n_links >= 2).map(|d| d % n_links) })
 }
 
 #[derive(Clone, Default)]
@@ -79,8 +84,22 @@ pub fn check(case: &Case, obs: &mut Obs) -> CheckResult {
     }
     let timeout = cfg.conn_timeout_ms;
     let mut sh = Shell::new(&addrs, cfg);
-    sh.establish_all();
+    let dead = case.dead.map(|d| d as usize).filter(|d| *d < n && n >= 2);
+    for i in 0..n {
+        if Some(i) == dead {
+            sh.break_socket(i);
+            sh.refuse_bind(i, true);
+            obs.class(if i + 1 < n { "dead-unregistered-link-ahead-of-a-live-one" } else { "dead-unregistered-link-last" });
+        } else {
+            sh.deliver_reg3(i);
+        }
+    }
+    let _ = sh.drain_wire();
+    let _ = sh.drain_client();
     let mut mons: Vec<LinkMon> = vec![LinkMon { last_ka: None, eligible_since: Some(sh.now()), ka_since_reset: false }; n];
+    if let Some(d) = dead {
+        mons[d].eligible_since = None;
+    }
     let mut max_spacing: u64 = 1000;
     // establishment counts as tick 0: the timer runs from start-up
     let mut last_tick: Option<u64> = Some(sh.now());
@@ -102,6 +121,9 @@ pub fn check(case: &Case, obs: &mut Obs) -> CheckResult {
             Op::Flush => sh.flush_tick(),
             Op::Reg3(l) => {
                 let li = idx(*l, n);
+                if Some(li) == dead {
+                    continue; // the receiver never hears from it, so it never answers it
+                }
                 sh.deliver_reg3(li);
                 mons[li].eligible_since = Some(sh.now());
                 mons[li].last_ka = None;
